@@ -272,8 +272,10 @@ class OnInstanceFailure:
     def pre_not_isolated(self, status):
         return status._state != SupvisorsInstanceStates.ISOLATED
 
-    def post_failed(self, status):
-        return status._state == SupvisorsInstanceStates.FAILED
+    def post_failed(self, status, old):
+        """a peer in an active state (CHECKING, CHECKED, RUNNING, FAILED) is FAILED at once; a peer already invalidated
+        (STOPPED: the documented graph has no STOPPED -> FAILED edge) keeps its state"""
+        return status._state == ite(old.status._state in ACTIVE, SupvisorsInstanceStates.FAILED, old.status._state)
 
 
 def timer_state(old_state, seen_it, counter, stamped, n):
